@@ -274,6 +274,17 @@ func (f *Frame) dispatch(ins ssa.Instruction, call *ssa.CallCommon, ct *callTarg
 		f.safe(st, "nil", tNot(tEq(ct.args[0].(*Term), tInt(0))), ins.Pos(), "method call on nil interface "+call.Value.Name()+"."+call.Method.Name())
 		ms := newModSet()
 		f.eng.callMods(f.fn, call, ms, nil)
+		if len(impls) >= 2 && len(impls) <= 6 {
+			allC := true
+			for _, m := range impls {
+				if c := f.eng.db.Contracts[shortName(m)]; c == nil {
+					allC = false
+				}
+			}
+			if allC {
+				return f.caseSplitCall(ins, call, ct, impls, st, ms, resType)
+			}
+		}
 		return f.havocCall(st, ms, resType, name)
 	}
 	if ct.fn == nil {
@@ -385,15 +396,18 @@ func (f *Frame) applyContract(ins ssa.Instruction, c *Contract, ct *callTarget, 
 	}
 	env := f.calleeEnv(c, ct, st, st)
 	for _, r := range c.Requires {
-		if hasTag(r.Tags, "safety") && !f.root.safety {
-			continue
-		}
 		t, err := env.formula(r.Expr)
 		if err != nil {
 			f.eng.specError(c.Func, r, err)
 			continue
 		}
-		if hasTag(r.Tags, "config") || hasTag(r.Tags, "ghostdef") {
+		if hasTag(r.Tags, "safety") && !f.root.safety {
+			// attribution rule: no-panic preconditions are obligations of C20 only; elsewhere they are assumed
+			f.root.notes["[safety] preconditions of callees are assumed at call sites (they are obligations of the C20 sweep)"] = true
+			f.addHyp(st.pc, t)
+			continue
+		}
+		if hasTag(r.Tags, "config") || hasTag(r.Tags, "ghostdef") || hasTag(r.Tags, "inv") {
 			// configuration invariant: assumed at the callee, not checked at call sites (listed in evidence)
 			f.root.notes["unchecked configuration precondition of "+c.Func+": "+r.Text] = true
 			f.addHyp(st.pc, t)
@@ -437,6 +451,9 @@ func (f *Frame) applyContract(ins ssa.Instruction, c *Contract, ct *callTarget, 
 	for _, en := range c.Ensures {
 		t, err := env2.formula(en.Expr)
 		if err != nil {
+			if strings.HasPrefix(err.Error(), "resultof") {
+				continue // clause mentions callee-internal call results: not usable at call sites (assuming less is sound)
+			}
 			f.eng.specError(c.Func, en, err)
 			continue
 		}
@@ -694,6 +711,12 @@ func init() {
 			}
 			return r
 		},
+		"math.Floor": func(f *Frame, ins ssa.Instruction, call *ssa.CallCommon, ct *callTarget, st *State) Value {
+			return mk("to_real", sortReal, mk("to_int", sortInt, T(f, ct, st, 0)))
+		},
+		"strings.Index": func(f *Frame, ins ssa.Instruction, call *ssa.CallCommon, ct *callTarget, st *State) Value {
+			return strIndex(f, st, T(f, ct, st, 0), T(f, ct, st, 1))
+		},
 		"slices.Contains": func(f *Frame, ins ssa.Instruction, call *ssa.CallCommon, ct *callTarget, st *State) Value {
 			return containsTerm(T(f, ct, st, 0), T(f, ct, st, 1))
 		},
@@ -812,3 +835,76 @@ func (f *Frame) findWrappedError(call *ssa.CallCommon, st *State) *Term {
 }
 
 var _ = token.NoPos
+
+// caseSplitCall: closed-world dispatch over the repo implementers of an interface method, each under its
+// own contract: assume (dynamic type is T_i) ==> post_i, and that the dynamic type is one of them.
+func (f *Frame) caseSplitCall(ins ssa.Instruction, call *ssa.CallCommon, ct *callTarget, impls []*ssa.Function, st *State, ms *ModSet, resType types.Type) Value {
+	recv := ct.args[0].(*Term)
+	f.root.notes[fmt.Sprintf("closed world: %s dispatches over its %d repo implementers", ct.display, len(impls))] = true
+	pre := st.clone()
+	var tagConds []*Term
+	// preconditions of each implementer under its tag
+	for _, m := range impls {
+		c := f.eng.db.Contracts[shortName(m)]
+		recvT := m.Signature.Recv().Type()
+		is := tEq(f.itag(recv), tInt(f.eng.typeTag(recvT)))
+		tagConds = append(tagConds, is)
+		nct := *ct
+		nct.fn = m
+		nct.invoke = false
+		nct.display = shortName(m)
+		nct.args = append([]Value{f.unbox(recv, recvT)}, ct.args[1:]...)
+		nct.argTypes = append([]types.Type{recvT}, ct.argTypes[1:]...)
+		env := f.calleeEnv(c, &nct, st, st)
+		for _, r := range c.Requires {
+			if hasTag(r.Tags, "safety") && !f.root.safety {
+				continue
+			}
+			t, err := env.formula(r.Expr)
+			if err != nil {
+				f.eng.specError(c.Func, r, err)
+				continue
+			}
+			if hasTag(r.Tags, "config") || hasTag(r.Tags, "ghostdef") || hasTag(r.Tags, "inv") {
+				f.addHyp(tAnd(st.pc, is), t)
+				continue
+			}
+			props := f.supportProps()
+			if hasTag(r.Tags, "safety") {
+				props = []string{"C20"}
+			}
+			n := f.siteOrdinal(ins, ct.display)
+			f.oblige(st, "pre", fmt.Sprintf("%s#%d.%s", lastName(nct.display), n, r.Label), props, r.Tags, tImp(is, t), ins.Pos(), r.Text)
+		}
+	}
+	f.addHyp(st.pc, tOr(tagConds...))
+	f.applyModSet(st, pre, ms, ct.display)
+	res := f.havocTyped(st, resType, "r_"+lastName(ct.display))
+	for i, m := range impls {
+		c := f.eng.db.Contracts[shortName(m)]
+		recvT := m.Signature.Recv().Type()
+		nct := *ct
+		nct.fn = m
+		nct.invoke = false
+		nct.display = shortName(m)
+		nct.args = append([]Value{f.unbox(recv, recvT)}, ct.args[1:]...)
+		nct.argTypes = append([]types.Type{recvT}, ct.argTypes[1:]...)
+		env2 := f.calleeEnv(c, &nct, st, pre)
+		env2.bindResults(res, ct.sig)
+		for _, en := range c.Ensures {
+			t, err := env2.formula(en.Expr)
+			if err != nil {
+				f.eng.specError(c.Func, en, err)
+				continue
+			}
+			f.addHyp(tAnd(st.pc, tagConds[i]), t)
+		}
+	}
+	return res
+}
+
+func strIndex(f *Frame, st *State, s, sep *Term) *Term {
+	r := uf("str_index", sortInt, s, sep)
+	f.addHyp(st.pc, tAnd(tLe(tInt(-1), r), tLe(r, strLen(s))))
+	return r
+}
